@@ -15,6 +15,7 @@ import (
 	"path/filepath"
 	"strconv"
 	"strings"
+	"sync"
 	"testing"
 	"time"
 
@@ -22,8 +23,14 @@ import (
 )
 
 // unattributed runs a case and returns the failures no open known finding absorbs.
+var (
+	openOnce sync.Once
+	openKF   map[string]bool
+)
+
 func unattributed(c Case) []kit.Failure {
-	open := kit.OpenFindings("C06")
+	openOnce.Do(func() { openKF = kit.OpenFindings("C06") })
+	open := openKF
 	res := run(c)
 	var out []kit.Failure
 	for _, f := range res.Failures {
